@@ -90,9 +90,18 @@ func VerifR10UndoLocal() {
 	}
 	// a well-nested undo/redo walk: pos is the index into contents
 	pos := nEdits
-	steps := zzvsym.IntRange("steps", 1, 3+zzvsym.Tier())
+	steps := zzvsym.IntRange("steps", 1, 4+zzvsym.Tier())
 	for sidx := 0; sidx < steps; sidx++ {
 		undo := zzvsym.IntRange(vName("undo", sidx), 0, 1) == 1
+		// well-nested walks only: a call on an empty stack is a no-op and
+		// is checked once, as the first step of a walk
+		if sidx > 0 {
+			if undo {
+				zzvsym.Assume(a.CanUndo())
+			} else {
+				zzvsym.Assume(a.CanRedo())
+			}
+		}
 		if undo {
 			if pos == 0 {
 				zzvsym.Assert(!a.CanUndo() || !exact, "undo-stack-empty-at-origin")
